@@ -66,6 +66,9 @@ func TestVerif_C20_ControlledSolo(t *testing.T) {
 			return &k
 		}
 		compare := func(where string) {
+			if s.w.elapsed() > 2*time.Second {
+				return // a stalled case could run into the 4 s transaction expiry: discarded at the end
+			}
 			got := selKey()
 			if (got == nil) != (selModel == nil) || (got != nil && *got != *selModel) {
 				sig := "C20/controlled/selection-differs-from-latest-nomination"
